@@ -200,10 +200,34 @@ class SStr:
         return eq if op == "==" else b_not(eq)
 
     def equals(self, I, other):
+        oc = other.concrete_or_self()
+        sc = self.concrete_or_self()
+        if isinstance(sc, str) and isinstance(oc, str):
+            return sc == oc
+        if isinstance(oc, str) and self.cannot_equal(oc):
+            return False
+        if isinstance(sc, str) and other.cannot_equal(sc):
+            return False
         if any(isinstance(s, Fmt) for s in self.segs + other.segs):
             # decide by length when possible, else unsupported
             raise Unsupported("equality of formatted-number strings")
         return self.to_z3(I) == other.to_z3(I)
+
+    def cannot_equal(self, c):
+        """Structural refutation of self == c for a concrete c (prefix literals and first-character classes)."""
+        pos = 0
+        for seg in self.segs:
+            if isinstance(seg, Lit):
+                if c[pos:pos + len(seg.text)] != seg.text:
+                    return True
+                pos += len(seg.text)
+            elif isinstance(seg, Sym) and seg.lang == "digits+":
+                if pos >= len(c) or not c[pos].isdigit():
+                    return True
+                return False     # rest undetermined
+            else:
+                return False
+        return pos != len(c)
 
     @staticmethod
     def contains(I, container, item):
@@ -530,19 +554,73 @@ def str_format(I, s, args, kwargs):
     return SStr.concat(parts)
 
 
+def _fresh_any(I, hint="s"):
+    return Sym(I.fresh("str", hint), "any")
+
+
 def _sym_strip(I, s, chars=None):
+    """Over-approximating strip(): literal ends are stripped exactly, a non-blank-class end is unchanged, an unconstrained
+    symbolic end becomes a fresh unconstrained string (sound for proofs: every behaviour is included)."""
     segs = list(s.segs)
     if chars is not None:
         raise Unsupported("strip(chars) on structured string")
-    # strip blank literal ends; Fmt ends cannot be stripped soundly unless they have no padding
-    if segs and isinstance(segs[0], Lit):
-        segs[0] = Lit(segs[0].text.lstrip())
-    if segs and isinstance(segs[-1], Lit):
-        segs[-1] = Lit(segs[-1].text.rstrip())
-    for end in (0, -1):
-        if segs and isinstance(segs[end], Sym) and segs[end].lang not in ("noblank", "digits", "letters"):
-            raise Unsupported("strip of an unconstrained symbolic end")
-    return SStr.concat(segs)
+    # left end
+    while segs and isinstance(segs[0], Lit):
+        t = segs[0].text.lstrip()
+        if t:
+            segs[0] = Lit(t)
+            break
+        segs.pop(0)
+    if segs and isinstance(segs[0], Sym) and segs[0].lang not in ("digits+", "letters+", "noblank+"):
+        segs[0] = _fresh_any(I, "lstrip")
+    if segs and isinstance(segs[0], Fmt):
+        raise Unsupported("strip of a formatted field")
+    while segs and isinstance(segs[-1], Lit):
+        t = segs[-1].text.rstrip()
+        if t:
+            segs[-1] = Lit(t)
+            break
+        segs.pop()
+    if segs and isinstance(segs[-1], Sym) and segs[-1].lang not in ("digits+", "letters+", "noblank+"):
+        segs[-1] = _fresh_any(I, "rstrip")
+    if segs and isinstance(segs[-1], Fmt):
+        raise Unsupported("strip of a formatted field")
+    return SStr.concat(segs) if segs else ""
+
+
+def _case_map(I, s, how):
+    out = []
+    first = True
+    for seg in s.segs:
+        if isinstance(seg, Lit):
+            if how == "capitalize":
+                t = (seg.text[0].upper() + seg.text[1:].lower()) if first else seg.text.lower()
+                if first and len(seg.text[0].upper()) != 1:
+                    raise Unsupported("capitalize of a multi-character upper-casing")
+            else:
+                t = getattr(seg.text, how)()
+            out.append(Lit(t))
+        elif isinstance(seg, Sym) and seg.lang == "digits+":
+            out.append(seg)
+        elif isinstance(seg, Sym):
+            if first and how == "capitalize":
+                raise Unsupported("capitalize with a symbolic first character")
+            out.append(_fresh_any(I, how))
+        else:
+            out.append(seg)
+        first = False
+    return SStr.concat(out)
+
+
+def _sym_isdigit(I, s):
+    for seg in s.segs:
+        if isinstance(seg, Lit) and not seg.text.isdigit():
+            return False
+        if isinstance(seg, Fmt):
+            raise Unsupported("isdigit of a formatted field")
+    if all((isinstance(x, Lit)) or (isinstance(x, Sym) and x.lang == "digits+") for x in s.segs):
+        return True
+    raise Unsupported("isdigit of an unconstrained symbolic string")
 
 
 def _sym_startswith(I, s, prefix):
@@ -558,7 +636,9 @@ def _sym_startswith(I, s, prefix):
     return z3.PrefixOf(z3.StringVal(prefix), s.to_z3(I))
 
 
-SYMBOLIC_METHODS = {"strip": _sym_strip, "startswith": _sym_startswith}
+SYMBOLIC_METHODS = {"strip": _sym_strip, "startswith": _sym_startswith, "isdigit": _sym_isdigit,
+                    "lower": lambda I, s: _case_map(I, s, "lower"), "upper": lambda I, s: _case_map(I, s, "upper"),
+                    "capitalize": lambda I, s: _case_map(I, s, "capitalize")}
 
 STR_METHODS = {n: _concrete_method(n) for n in (
     "strip", "lstrip", "rstrip", "lower", "upper", "capitalize", "title", "split", "rsplit", "splitlines", "join", "replace",
